@@ -2,10 +2,12 @@
 import re
 from common import hx
 from convgen import *
+import swbase
+from swbase import AFTER_PREFIXES, model_line_after, agree_after
 
 ID = "C11"
-PROPS = "C11"
-EXEC = "ra"
+PROPS = ["C11", "C01Lockstep", "C06Check"]
+EXEC = ("ra", "srs")
 IMPL_SHARDS = 8
 PER_SHARD = 16
 RULE = ("pipelines of 2..8 requests with every combination of body kinds (none, Content-Length 1 / 1023 / 1024 pre-buffered, 1025 / "
@@ -14,7 +16,13 @@ RULE = ("pipelines of 2..8 requests with every combination of body kinds (none, 
         "is answered; then the application reads the holder's body to its end / reads part of it / responds / drops / takes the "
         "raw writer; round 2: which successors become obtainable; the oracle (from the property text) demands all requests up to "
         "and including the first one with a streamed body in round 1, the rest (up to the next streamed one) in round 2 unless the "
-        "body was only partly read; non-trivial = the pipeline contains a streamed body; distinct = distinct lines")
+        "body was only partly read; non-trivial = the pipeline contains a streamed body; distinct = distinct lines. SCHEDULED RUNS of the "
+        "real reader chain (`srs`): SequentialReaderBuilder / SequentialReader of src/util/sequential.rs (the connection's reader "
+        "handed from request to request) under the controllable runtime (hook H2); 2..7 readers over 1..4 threads plus the "
+        "connection thread, reads with buffers of 0..5 bytes over sources of 0..40 bytes, drops; the recorded labels are replayed "
+        "in lock-step through Conc/SeqWriter.v (the chain has the same shape: `Write i d` read as `reader i consumed d`): a reader "
+        "reads or is dropped only when every earlier one was dropped, the bytes obtained reader after reader are a prefix of the "
+        "source, blocked operations are disabled in the model, scripts accepted by the extracted checker end with nothing blocked")
 ASSUMPTIONS = ["the harness waits 3 s for the number of requests the model expects and probes 100 ms for one more: slowness can only "
                "hide a difference"]
 
@@ -88,6 +96,8 @@ def gen(tier, rng):
             kinds = [rng.choice(["none", "cl1", "cl1023", "cl1024", "cl0", "v10ka"]) for _ in range(k)]      # everything obtainable at once
         act = rng.choice(["all", "awayR", "awayD", "awayW", "part3", "part1"])
         yield build(rng, i, kinds, act)
+    for x in swbase.gen_srs(tier, rng):
+        yield x
 
 
 def hint(case, model_obs):
@@ -103,6 +113,8 @@ def project(o):
 
 
 def oracle(case, obs):
+    if case.startswith("srs "):
+        return swbase.oracle(case, obs)
     m = re.match(r"a1=(\S+) a2=(\S+)", obs)
     if not m:
         return "FAIL implementation: " + obs[:200]
@@ -118,4 +130,6 @@ def oracle(case, obs):
 
 
 def nontrivial(case, mo):
+    if case.startswith("srs "):
+        return swbase.nontrivial(case, mo)
     return " w2=-" not in case
